@@ -1,0 +1,12 @@
+//go:build !verif
+// +build !verif
+
+// Package verifhook provides observation and delay points for the verification harness in
+// /verif. Without the build tag "verif" every function is an empty, inlinable no-op.
+package verifhook
+
+// At marks a named point in the code. The harness may attach an action (delay, callback) to it.
+func At(name string) {}
+
+// Emit reports a named event with optional key/value details.
+func Emit(kind string, kv ...interface{}) {}
